@@ -1330,37 +1330,28 @@ func ruleVariablesShadowFields(c *core.Ctx) {
 			if types.ExprString(cc.List[0]) != "*MemberAccessExpression" {
 				return true
 			}
-			// the sequence of collections searched, in execution order (helpers of the package followed two levels)
+			// the sequence of collections consulted, in source order: every mention of `….Variables`, `….Fields`,
+			// `….ComputedFields` in the clause (a range, an index loop, an argument of a finder helper)
 			var seq []string
 			var pos []token.Pos
-			var scan func(node ast.Node, depth int)
-			scan = func(node ast.Node, depth int) {
-				ast.Inspect(node, func(k ast.Node) bool {
+			for _, s := range cc.Body {
+				ast.Inspect(s, func(k ast.Node) bool {
 					switch y := k.(type) {
 					case *ast.FuncLit:
 						return false
-					case *ast.RangeStmt:
-						if se, ok := y.X.(*ast.SelectorExpr); ok {
-							switch se.Sel.Name {
-							case "Variables", "Fields", "ComputedFields":
-								seq = append(seq, se.Sel.Name)
-								pos = append(pos, y.Pos())
-							}
-						}
-					case *ast.CallExpr:
-						if depth < 2 {
-							if fn, _ := typeutil.Callee(info, y).(*types.Func); fn != nil && fn.Pkg() == p.Types {
-								if hd := c.Decl(fn); hd != nil && hd.Body != nil && hd != d {
-									scan(hd.Body, depth+1)
+					case *ast.SelectorExpr:
+						switch y.Sel.Name {
+						case "Variables", "Fields", "ComputedFields":
+							if t := info.TypeOf(y); t != nil {
+								if _, isSlice := t.Underlying().(*types.Slice); isSlice {
+									seq = append(seq, y.Sel.Name)
+									pos = append(pos, y.Pos())
 								}
 							}
 						}
 					}
 					return true
 				})
-			}
-			for _, s := range cc.Body {
-				scan(s, 0)
 			}
 			hasVar, hasField := false, false
 			for _, s := range seq {
